@@ -134,7 +134,7 @@ func VerifBGPShouldAnnounce(focus, nslices, nper int) {
 			decided = vr.Or(decided, isNU)
 		}
 		if focus != 1 && vr.Bool() {
-			n.Labels[v1.LabelNodeExcludeBalancers] = vr.PickString("", "true")
+			n.Labels[v1.LabelNodeExcludeBalancers] = vr.PickString("", "true", "false")
 			excluded = true
 		}
 		nodes[vhMe] = n
